@@ -713,6 +713,38 @@ def as_less(node):
     return None
 
 
+def _inline_return_temps(tree):
+    """`x = E` directly followed by `return x`, with x a local mentioned nowhere else in the
+    function, is `return E` (naming the result is the commonest of all clean-up edits)"""
+    def scopes(n):
+        for ch in ast.walk(n):
+            if isinstance(ch, (ast.FunctionDef, ast.AsyncFunctionDef)):
+                yield ch
+
+    for fn in scopes(tree):
+        uses = {}
+        declared = set()
+        for x in ast.walk(fn):
+            if isinstance(x, ast.Name):
+                uses[x.id] = uses.get(x.id, 0) + 1
+            elif isinstance(x, (ast.Global, ast.Nonlocal)):
+                declared.update(x.names)
+        for holder in ast.walk(fn):
+            for fld in ("body", "orelse", "finalbody"):
+                b = getattr(holder, fld, None)
+                if not (isinstance(b, list) and len(b) >= 2 and isinstance(b[0], ast.stmt)):
+                    continue
+                i = 0
+                while i + 1 < len(b):
+                    a, r = b[i], b[i + 1]
+                    if isinstance(a, ast.Assign) and len(a.targets) == 1 and isinstance(a.targets[0], ast.Name) and isinstance(r, ast.Return) \
+                            and isinstance(r.value, ast.Name) and r.value.id == a.targets[0].id and uses.get(r.value.id) == 2 and r.value.id not in declared:
+                        b[i:i + 2] = [ast.copy_location(ast.Return(value=a.value), a)]
+                    else:
+                        i += 1
+    return tree
+
+
 def normalise_tree(tree):
     aliases = {}
     for n in ast.walk(tree):
@@ -726,6 +758,8 @@ def normalise_tree(tree):
     if not os.environ.get("HV_NO_ALIAS_INLINE"):
         for _ in range(3):  # aliases of aliases
             tree = _inline_attribute_aliases(tree)
+    if not os.environ.get("HV_NO_RETURN_TEMPS"):
+        tree = _inline_return_temps(tree)
     if not os.environ.get("HV_NO_CONTROL_SHAPE"):
         tree = _ControlShape().visit(tree)
     if not os.environ.get("HV_NO_LOOPCOMP"):
